@@ -78,11 +78,15 @@ class ThermochemGroupAdditive(ThermochemBase):
             ThermochemBase.__init__(self, range=None)
 
     def get_CpoR(self, T):
+        # the range of an estimate is its own (set_range, library groups
+        # changed since): it is enforced here, not left to the groups
+        self.check_range(T)
         return sum((count*correlation.get_CpoR(T)
                     for (correlation, count) in self.correlations))
     get_CpoR.__doc__ = ThermochemBase.get_CpoR.__doc__
 
     def get_HoRT(self, T):
+        self.check_range(T)
         return sum((count*correlation.get_HoRT(T)
                     for (correlation, count) in self.correlations))
     get_HoRT.__doc__ = ThermochemBase.get_HoRT.__doc__
@@ -101,6 +105,7 @@ class ThermochemGroupAdditive(ThermochemBase):
         return S_ele
 
     def get_SoR(self, T, S_elements=None):
+        self.check_range(T)
         if not S_elements:
             S_ele = 0
         else:
@@ -110,14 +115,17 @@ class ThermochemGroupAdditive(ThermochemBase):
     get_SoR.__doc__ = ThermochemBase.get_SoR.__doc__
 
     def get_CpoR_SE(self, T):
+        self.check_range(T)
         return float(np.sqrt(np.square(self.RMSE.get_CpoR(T)) *
                              self.Xp_invXX_Xp))
 
     def get_HoRT_SE(self, T):
+        self.check_range(T)
         return float(np.sqrt(np.square(self.RMSE.get_HoRT(T)) *
                              self.Xp_invXX_Xp))
 
     def get_SoR_SE(self, T):
+        self.check_range(T)
         return float(np.sqrt(np.square(self.RMSE.get_SoR(T)) *
                              self.Xp_invXX_Xp))
 
